@@ -384,6 +384,12 @@ func Expr(e *N) string {
 		return e.S + "." + e.M + "(" + Expr(e.E) + ")"
 	case "bvar":
 		return e.S
+	case "isnil":
+		op := map[string]string{"eq": "==", "ne": "!="}[e.Op]
+		if e.Form == "nx" {
+			return "nil " + op + " " + e.S
+		}
+		return e.S + " " + op + " nil"
 	case "ucmp":
 		op := map[string]string{"eq": "==", "ne": "!="}[e.Op]
 		return e.S + " " + op + " " + e.From
